@@ -422,4 +422,37 @@ theorem before_iterBody_lt {inner : Inst → Task Inst} {inst : Inst} {n i j j' 
       exact List.mem_flatMap.mpr ⟨j', by simp only [List.mem_range'_1]; omega, hy⟩
     · exact .seqR (ih (by omega) (by omega))
 
+/-! ### inner dispatches of one batch run one after the other -/
+
+theorem iterBody_sys_mem (inner : Inst → Task Inst) (inst : Inst) {x : Inst} :
+    ∀ (k i a : Nat), a < k → x ∈ (inner (inst ++ [i + a])).sys → x ∈ (iterBody inner inst k i).sys
+  | 0, _, _, h, _ => by omega
+  | k + 1, i, 0, _, hx => by
+      simp only [iterBody, Task.sys, List.mem_append]
+      exact Or.inl (by simpa using hx)
+  | k + 1, i, a + 1, h, hx => by
+      simp only [iterBody, Task.sys, List.mem_append]
+      refine Or.inr (iterBody_sys_mem inner inst k (i + 1) a (by omega) ?_)
+      have : i + 1 + a = i + (a + 1) := by omega
+      rw [this]; exact hx
+
+/-- everything of inner dispatch `i + a` is ordered before everything of inner dispatch `i + b`, `a < b` -/
+theorem iterBody_before (inner : Inst → Task Inst) (inst : Inst) {x y : Inst} :
+    ∀ (k i a b : Nat), a < b → b < k → x ∈ (inner (inst ++ [i + a])).sys → y ∈ (inner (inst ++ [i + b])).sys →
+      Before (iterBody inner inst k i) x y
+  | 0, _, _, _, _, h, _, _ => by omega
+  | k + 1, i, 0, b + 1, _, hb, hx, hy => by
+      simp only [iterBody]
+      refine Before.here (by simpa using hx) (iterBody_sys_mem inner inst k (i + 1) b (by omega) ?_)
+      have : i + 1 + b = i + (b + 1) := by omega
+      rw [this]; exact hy
+  | k + 1, i, a + 1, b + 1, hab, hb, hx, hy => by
+      simp only [iterBody]
+      refine Before.seqR (iterBody_before inner inst k (i + 1) a b (by omega) (by omega) ?_ ?_)
+      · have : i + 1 + a = i + (a + 1) := by omega
+        rw [this]; exact hx
+      · have : i + 1 + b = i + (b + 1) := by omega
+        rw [this]; exact hy
+  | k + 1, _, _ + 1, 0, hab, _, _, _ => by omega
+
 end Shred
